@@ -239,8 +239,12 @@ class EmissionModel(SimpleForwardModel):
 
                 if k_dtau.min() < self._clamp:
                     dtau_calc *= np.sum(np.exp(-k_dtau) * wg, axis=-1)
+                else:
+                    dtau_calc = 0.0
                 if k_layer.min() < self._clamp:
                     layer_tau_calc *= np.sum(np.exp(-k_layer) * wg, axis=-1)
+                else:
+                    layer_tau_calc = 0.0
 
             _tau = layer_tau_calc - dtau_calc
 
